@@ -15,6 +15,7 @@ The spec grammar for `new` is the one of vlib/newgen.py (struct trees); the othe
 """
 import hashlib
 import json
+import os
 import re
 
 from . import core, newgen
@@ -155,6 +156,8 @@ def build_new_pkg(listed, flags, star=False, extra_feats=(), render=None):
              ["disk"] + list(disk), ["types"] + [ntype_sexp(by_name[nm], gofile, getset) for nm in order_names]]
         if orig is not None:
             p.append(["orig"] + [Q(x) for x in orig])
+        if os.environ.get("VERIF_REPAIR"):
+            p.append(["repair", os.environ["VERIF_REPAIR"]])     # checking a tree that carries notes/proposed/*.patch
         return p
 
     return {"cmd": "new", "flags": list(flags), "files": {gofile: src}, "cwd": ".", "gofile": gofile,
